@@ -54,6 +54,15 @@ def validatedIntAtLeast0 (value : Str) : Out Nat :=
 
 def validQuoteCharacters : List Char := "!\"#$%&'*+-/:;=?\\^_`~".toList
 
+/-- the code point a single token stands for (`_validated_character`'s dispatch on the token type) -/
+def tokenCode (t : Tok) : Out Int :=
+  if t.kind == .name then codeForSymbolic t.text
+  else if t.kind == .number then codeForNumber t.text
+  else if t.kind == .string then codeForString t.text
+  else match t.text with
+    | [c] => .ok c.toNat
+    | _ => .error .iface
+
 /-- `_validated_character`: the code point denoted by `value` (`chr()` is applied by the caller) -/
 def validatedCharacterCode (value : Str) : Out Int :=
   let stripped := strip value
@@ -69,14 +78,7 @@ where
     | .ok (t :: rest) =>
       if t.isEof then .error .iface
       else
-        let code : Out Int :=
-          if t.kind == .name then codeForSymbolic t.text
-          else if t.kind == .number then codeForNumber t.text
-          else if t.kind == .string then codeForString t.text
-          else match t.text with
-            | [c] => .ok c.toNat
-            | _ => .error .iface
-        match code with
+        match tokenCode t with
         | .error e => .error e
         | .ok c =>
           match rest with
